@@ -13,7 +13,7 @@ from __future__ import annotations
 import itertools
 import re
 
-from engine import symex, sstr, reshim
+from engine import symex, sstr, reshim, symos
 from engine.sstr import SStr
 
 import aioslsk.constants as CONST
@@ -74,23 +74,21 @@ def reset_module_state():
                 v.cache_clear()
 
 
-class _PathShim(sstr.PathShim):
-    """os.path of engine/sstr.py plus commonpath on the (concrete) directory paths"""
-
-    def commonpath(self, paths):
-        import posixpath
-        paths = list(paths)
-        if not all(isinstance(x, str) and not sstr.has_sym(x) for x in paths):
-            raise symex.HarnessError('os.path.commonpath on a symbolic path is not modelled')
-        return posixpath.commonpath(paths)
+def _isinstance(obj, cls):
+    """builtins.isinstance for which a symbolic string is a str"""
+    if isinstance(obj, SStr) and (cls is str or (isinstance(cls, tuple) and str in cls)):
+        return True
+    return isinstance(obj, cls)
 
 
 class Env:
-    """symbolic runs only: `re` -> reshim.ReShim and `os` -> sstr.OsShim (os.path.join on symbolic strings)
-    in the globals of the four modules under test; engine/sstr.py keeps every derived string an SStr."""
+    """symbolic runs only: `re` -> reshim.ReShim and `os` -> symos.OsShim (os.path.* and os.walk on symbolic
+    strings over an in-memory tree) in the globals of the four modules under test; engine/sstr.py keeps every
+    derived string an SStr."""
 
-    def __init__(self, c):
+    def __init__(self, c, fs=None):
         self.c = c
+        self.fs = fs
         self.saved = []
         self.keep = None
 
@@ -103,13 +101,14 @@ class Env:
         if self.c.symbolic:
             import os as real_os
             shim_re = reshim.ReShim()
-            shim_os = sstr.OsShim(sstr.SymFS())
-            shim_os.path = _PathShim(shim_os._fs)
+            shim_os = symos.OsShim(self.fs if self.fs is not None else sstr.SymFS())
             for mod in (SM, SU, MD, QM):
                 if mod.__dict__.get('re') is re:
                     self._set(mod, 're', shim_re)
                 if mod.__dict__.get('os') is real_os:
                     self._set(mod, 'os', shim_os)
+            for mod in (SM, MD):
+                self._set(mod, 'isinstance', _isinstance)        # SStr is not a subclass of str
             self.keep = reshim.keep_sstr().__enter__()
         return self
 
@@ -485,6 +484,296 @@ def h_query(c, query, names, layout='flat', second=None, history='index'):
             term_map_keys_sound(sm)
 
 
+# ------------------------------------------------------------------------------
+# second sentence of the property, as far as names decide it: containment of shared directories and the
+# index the scan builds.  Directory names are symbolic; tree shapes and histories are enumerated.
+# ------------------------------------------------------------------------------
+
+SIGMA_PATH = SIGMA + ['/']
+
+
+def r_normalized(cs):
+    """the path (first character '/') is what abspath + normpath return: no '//', no trailing '/', no '.' / '..'
+    component"""
+    n = len(cs)
+    sl = [r_is(ch, '/') for ch in cs]
+    dot = [r_is(ch, '.') for ch in cs]
+    conds = [sl[0]]
+    if n > 1:
+        conds.append(_not(sl[n - 1]))
+    for i in range(n - 1):
+        conds.append(_not(_and([sl[i], sl[i + 1]])))
+    for i in range(1, n):
+        end1 = True if i + 1 == n else sl[i + 1]
+        conds.append(_not(_and([sl[i - 1], dot[i], end1])))
+        if i + 1 < n:
+            end2 = True if i + 2 == n else sl[i + 2]
+            conds.append(_not(_and([sl[i - 1], dot[i], dot[i + 1], end2])))
+    return _and(conds)
+
+
+def r_is_parent(p, q):
+    """component-wise: the directory p is q or an ancestor of q (both normalised absolute paths)"""
+    if len(p) == 1:
+        return True                     # the root
+    if len(p) > len(q):
+        return False
+    pre = _and(sstr.ch_eq(p[i], q[i]) for i in range(len(p)))
+    if len(p) == len(q):
+        return pre
+    return _and([pre, r_is(q[len(p)], '/')])
+
+
+def _agree(c, got, want, label, sig, info=None):
+    """`got`: what the code answered on this path (a bool after forking); `want`: the reference formula"""
+    c.check(want if got else _not(want), label, sig=sig, info=info)
+
+
+def bare_manager():
+    return SM.SharesManager(Settings(credentials={'username': 'u', 'password': 'p'}), EventBus(), None)
+
+
+def h_contains(c, p, q):
+    """is_parent_of / is_child_of / _get_parent_directories / _get_child_directories against the component-wise
+    reference; both paths symbolic over Σ + '/', so where the components are is decided by the solver"""
+    sstr.use_alphabet(SIGMA_PATH)
+    pp, qq = build(c, 'p', p), build(c, 'q', q)
+    pc, qc = chars_of(pp), chars_of(qq)
+    c.assume(_and([r_normalized(pc), r_normalized(qc)]))
+    if not c.symbolic:
+        c.note('p', pp, 'q', qq)
+    want_pq, want_qp = r_is_parent(pc, qc), r_is_parent(qc, pc)
+    sig = ['kernel']
+    with Env(c):
+        A = MD.SharedDirectory(pp, pp, 'ala')
+        B = MD.SharedDirectory(qq, qq, 'alb')
+        _agree(c, bool(A.is_parent_of(B)), want_pq, 'is_parent_of_is_component_wise', sig, 'A.is_parent_of(B)')
+        _agree(c, bool(A.is_parent_of(qq)), want_pq, 'is_parent_of_is_component_wise', sig, 'A.is_parent_of(str)')
+        _agree(c, bool(B.is_parent_of(A)), want_qp, 'is_parent_of_is_component_wise', sig, 'B.is_parent_of(A)')
+        _agree(c, bool(B.is_child_of(A)), want_pq, 'is_child_of_is_component_wise', sig, 'B.is_child_of(A)')
+        _agree(c, bool(B.is_child_of(pp)), want_pq, 'is_child_of_is_component_wise', sig, 'B.is_child_of(str)')
+        _agree(c, bool(A.is_child_of(B)), want_qp, 'is_child_of_is_component_wise', sig, 'A.is_child_of(B)')
+        sm = bare_manager()
+        sm._shared_directories = [A, B]
+        X = MD.SharedDirectory(qq, qq, 'alx')          # a directory being added at path q
+        parents = sm._get_parent_directories(X)
+        _agree(c, any(d is A for d in parents), want_pq, 'parent_directories_are_the_ancestors', sig)
+        c.check(any(d is B for d in parents) and all(d is A or d is B for d in parents), 'parent_directories_are_the_ancestors', sig=sig)
+        c.check(all(len(a.absolute_path) <= len(b.absolute_path) for a, b in zip(parents, parents[1:])),
+                'parent_directories_innermost_last', sig=sig)
+        Y = MD.SharedDirectory(pp, pp, 'aly')
+        children = sm._get_child_directories(Y)
+        _agree(c, any(d is B for d in children), want_pq, 'child_directories_are_the_descendants', sig)
+    c.reach('containment_decided')
+
+
+# trees: node = (parent index, name key, number of files); node 0 is the outer shared directory.  A name key that
+# occurs twice is the same name.  'child': the nested shared directory.
+TREES = {
+    'T1': {'nodes': [(None, 'r', 1), (0, 'C', 1), (0, 'S', 1)], 'child': 1},
+    'T2': {'nodes': [(None, 'r', 0), (0, 'C', 1), (1, 'D', 1), (0, 'S', 1), (0, 'T', 1)], 'child': 1},
+    'T3': {'nodes': [(None, 'r', 1), (0, 'A', 0), (1, 'C', 1), (1, 'S', 2)], 'child': 2},
+    'T4': {'nodes': [(None, 'r', 0), (0, 'C', 1), (0, 'S', 1), (2, 'C', 1)], 'child': 1},
+    # two nested shared directories side by side: the innermost parent of one must never be the other
+    'T5': {'nodes': [(None, 'r', 1), (0, 'C', 1), (0, 'S', 1)], 'child': 1, 'child2': 2},
+}
+HISTORIES = {
+    # steps: aO/aC add outer / child, s scan every shared directory, rC/rO remove, ! check the index
+    'OC_s': ['aO', 'aC', 's', '!'],
+    'CO_s': ['aC', 'aO', 's', '!'],
+    'O_s_C': ['aO', 's', '!', 'aC', '!', 's', '!'],
+    'OC_s_rC': ['aO', 'aC', 's', 'rC', '!', 's', '!'],
+    'OC_s_rO': ['aO', 'aC', 's', 'rO', '!', 's', '!'],
+}
+HISTORIES_TWO_NESTED = {            # tree T5 only; aS / rS: the second nested shared directory
+    'O_s_CS': ['aO', 's', 'aC', 'aS', '!', 's', '!'],
+    'O_s_SC': ['aO', 's', 'aS', 'aC', '!', 's', '!'],
+    'OCS_s_rS': ['aO', 'aC', 'aS', 's', '!', 'rS', '!', 's', '!'],
+    'OSC_s_rC': ['aO', 'aS', 'aC', 's', '!', 'rC', '!', 's', '!'],
+}
+ALL_HISTORIES = {**HISTORIES, **HISTORIES_TWO_NESTED}
+
+
+class Tree:
+    """the directory tree on "disk": sstr.SymFS in symbolic runs, a real temporary directory in replays"""
+
+    def __init__(self, c, tree, lens, symbolic_files=False):
+        if c.symbolic:
+            with reshim.keep_sstr():        # every path, also a fully concrete one, stays an SStr
+                self._build(c, tree, lens, symbolic_files)
+        else:
+            self._build(c, tree, lens, symbolic_files)
+
+    def _build(self, c, tree, lens, symbolic_files):
+        import os
+        import tempfile
+        self.c = c
+        self.spec = TREES[tree]
+        nodes = self.spec['nodes']
+        keys = sorted({k for _, k, _ in nodes if k != 'r'})
+        self.names = {'r': reshim.const('r') if c.symbolic else 'r'}
+        for k in keys:
+            self.names[k] = build(c, f'n{k}', '~' * lens[k])
+        self.fs = sstr.SymFS() if c.symbolic else None
+        self.tmp = None if c.symbolic else tempfile.mkdtemp(prefix='c07-')
+        root = reshim.const('/') if c.symbolic else self.tmp + '/'
+        self.paths, self.fsnodes, self.files = [], [], []          # files: (node index, name, path)
+        conds = []
+        for i, (par, key, nfiles) in enumerate(nodes):
+            name = self.names[key]
+            path = (root + name) if par is None else (self.paths[par] + '/' + name)
+            self.paths.append(path)
+            if c.symbolic:
+                self.fsnodes.append(self.fs.mkdirs('/r') if par is None else self.fs.add(self.fsnodes[par], name, 'd'))
+            else:
+                os.makedirs(path)
+            for j in range(nfiles):
+                fname = build(c, f'f{i}_{j}', '~~') if symbolic_files else (reshim.const(f'f{i}{j}') if c.symbolic else f'f{i}{j}')
+                if symbolic_files:
+                    conds += [_not(sstr.eq(fname, '..')) if c.symbolic else fname != '..']
+                    conds += [(_not(sstr.eq(fname, o)) if c.symbolic else fname != o) for n2, o, _ in self.files if n2 == i]
+                    # a file and a sub-directory of one directory have different names
+                    conds += [(_not(sstr.eq(fname, self.names[k2])) if c.symbolic else fname != self.names[k2])
+                              for p2, k2, _ in nodes if p2 == i and len(self.names[k2]) == 2]
+                fpath = path + '/' + fname
+                self.files.append((i, fname, fpath))
+                if c.symbolic:
+                    self.fs.add(self.fsnodes[i], fname, 'f', tag=1.0)
+                else:
+                    open(fpath, 'w').close()
+        # what a directory listing guarantees: no '.', '..'; entries of one directory differ
+        for k in keys:
+            for bad in ('.', '..'):
+                if len(self.names[k]) == len(bad):
+                    conds.append(_not(sstr.eq(self.names[k], bad)) if c.symbolic else self.names[k] != bad)
+        for (i, (pi, ki, _)), (j, (pj, kj, _)) in itertools.combinations(enumerate(nodes), 2):
+            if pi == pj and ki != kj and len(self.names[ki]) == len(self.names[kj]):
+                conds.append(_not(sstr.eq(self.names[ki], self.names[kj])) if c.symbolic else self.names[ki] != self.names[kj])
+        self.assumption = _and(conds)
+
+    def ancestors(self, i):
+        while i is not None:
+            yield i
+            i = self.spec['nodes'][i][0]
+
+    def cleanup(self):
+        if self.tmp:
+            import shutil
+            shutil.rmtree(self.tmp, ignore_errors=True)
+
+
+def item_path(item):
+    """where the indexed item lives, from its own fields (not through the code's helpers)"""
+    base = item.shared_directory.absolute_path
+    if len(item.subdir):
+        return base + '/' + item.subdir + '/' + item.filename
+    return base + '/' + item.filename
+
+
+def judge_index(c, sm, tree, shared, sig):
+    """every file on disk under a shared directory is in exactly one SharedDirectory.items -- the innermost shared
+    directory containing it --, nothing else is indexed, and get_stats() equals that index.  `shared`: node index ->
+    SharedDirectory.  Which directory contains a file is known from how the tree was built (by position, not by
+    name)."""
+    held = [(sd, item, item_path(item)) for sd in sm.shared_directories for item in sd.items]
+    ref_files, ref_dirs = 0, set()
+    for node, fname, fpath in tree.files:
+        holder = next((shared[a] for a in tree.ancestors(node) if a in shared), None)
+        same = [sstr.eq(ip, fpath) for _, _, ip in held]
+        info = f'file of node {node}'
+        if holder is None:
+            c.check(_not(_or(same)), 'unshared_file_is_not_indexed', sig=sig, info=info)
+            continue
+        ref_files += 1
+        ref_dirs.add(node)
+        once = _and([_or(same)] + [_not(_and([a, b])) for a, b in itertools.combinations(same, 2)])
+        c.check(once, 'file_indexed_exactly_once', sig=sig, info=info)
+        c.check(_or(s for s, (sd, _, _) in zip(same, held) if sd is holder), 'file_indexed_under_innermost_shared_directory',
+                sig=sig, info=info)
+    for _, _, ip in held:
+        c.check(_or(sstr.eq(ip, fpath) for _, _, fpath in tree.files), 'index_holds_only_files_on_disk', sig=sig)
+    dir_count, file_count = sm.get_stats()
+    c.check(file_count == ref_files, 'reported_file_count_equals_index', sig=sig, info=f'reported {file_count}, on disk {ref_files}')
+    c.check(dir_count == len(ref_dirs), 'reported_folder_count_equals_index', sig=sig, info=f'reported {dir_count}, on disk {len(ref_dirs)}')
+
+
+def h_index(c, tree, lens, history, symbolic_files=False):
+    """real add_shared_directory / scan_directory_files (real scan_directory over the tree) / remove_shared_directory"""
+    sstr.use_alphabet(SIGMA)
+    t = Tree(c, tree, lens, symbolic_files)
+    try:
+        c.assume(t.assumption)
+        names = t.names
+        # finite discriminant for signatures, decided here so that both situations are explored as separate paths:
+        # is the name of a sibling directory a string-prefix extension of the nested shared directory's name (or
+        # the other way round)?
+        rel = 'unrelated'
+        child_parent, child_key, _ = t.spec['nodes'][t.spec['child']]
+        for k in sorted({key for par, key, _ in t.spec['nodes'] if par == child_parent and key != child_key}):
+            if rel != 'unrelated':
+                continue
+            a, b = names[child_key], names[k]
+            if len(b) > len(a) and (bool(b.startswith(a)) if c.symbolic else b.startswith(a)):
+                rel = 'sibling_extends_child_name'
+            elif len(a) > len(b) and (bool(a.startswith(b)) if c.symbolic else a.startswith(b)):
+                rel = 'child_extends_sibling_name'
+        c.reach(rel)
+        if not c.symbolic:
+            c.note('directories', [str(x) for x in t.paths], 'files', [str(f[2]) for f in t.files])
+        errors = []
+        real_scan = SM.scan_directory
+
+        def scan_directory(*a, **kw):
+            # scan_directory_files logs and drops every exception of the scan: keep harness errors visible
+            try:
+                return real_scan(*a, **kw)
+            except Exception as e:
+                errors.append(e)
+                raise
+        from engine.vloop import VLoop
+        with Env(c, t.fs):
+            SM.__dict__['scan_directory'] = scan_directory
+            try:
+                sm = bare_manager()
+                # the term map is the other half of the property (h_query); building it here would only fork over which
+                # characters of the directory names are word characters
+                sm._build_term_map = lambda shared_directory: None
+                if c.symbolic:
+                    seq = iter(range(100))
+                    sm.generate_alias = lambda path, offset=0: f'al{next(seq)}'       # path.encode() is C code
+                shared = {}
+                which = {'O': 0, 'C': t.spec['child'], 'S': t.spec.get('child2')}
+                prev = None
+                for step in ALL_HISTORIES[history]:
+                    if step[0] == 'a':
+                        shared[which[step[1]]] = sm.add_shared_directory(t.paths[which[step[1]]])
+                    elif step[0] == 'r':
+                        sm.remove_shared_directory(shared.pop(which[step[1]]))
+                    elif step == 's':
+                        loop = VLoop()
+                        try:
+                            for d in list(sm.shared_directories):
+                                loop.run_until_complete(sm.scan_directory_files(d))
+                            if loop.errors:
+                                raise symex.HarnessError(f'loop errors during scan: {loop.errors!r}')
+                        finally:
+                            loop.cleanup()
+                        for e in errors:
+                            if isinstance(e, symex.HarnessError) or _proxy_error(e):
+                                raise symex.HarnessError(f'inside scan_directory: {type(e).__name__}: {e}')
+                        c.check(not errors, 'scan_does_not_raise', sig=[tree, history, rel], info=repr(errors[:1]))
+                    else:
+                        kind = {'s': 'after_scan', 'aC': 'after_add_nested', 'aS': 'after_add_nested', 'rC': 'after_remove_nested',
+                                'rS': 'after_remove_nested', 'rO': 'after_remove_outer'}[prev]
+                        judge_index(c, sm, t, shared, [tree, history, kind, rel])
+                        c.reach('index_judged')
+                    prev = step
+            finally:
+                SM.__dict__['scan_directory'] = real_scan
+    finally:
+        t.cleanup()
+
+
 def h_pattern(c, term, wildcard, n):
     """create_term_pattern against the whole-word reference on every string of length n over Σ"""
     sstr.use_alphabet(SIGMA)
@@ -625,6 +914,7 @@ def prelude(tier):
                  f'+ {len(reshim.GENERIC_PATTERNS)} generic patterns, all strings of length <= 4 / <= 3 over a sub-alphabet)')
     # split / sub go through the backtracking matcher of engine/sstr.py
     notes += sstr.selftest(alphabet='a_. \\/' if tier == 'quick' else 'aA_. \\/1', maxlen=3)
+    notes += symos.selftest('ab./', 4) if tier == 'quick' else symos.selftest('aB./ ', 5)
     # the reference on a few pinned examples (guards against a vacuous reference)
     ex = [('a b.mp3', 'a', False, True), ('ab.mp3', 'a', False, False), ('ab.mp3', 'b', True, True), ('x\\ab', 'b', True, True),
           ('a_b', 'B', False, True), ('aéb', 'é', False, False), ('1 (a)', '(a)', False, True), ('ba.b', 'a.b', True, True),
@@ -699,6 +989,36 @@ SELFCHECKS = [('term', 'a'), ('wterm', 'a'), ('term', 'a.b'), ('wterm', 'éb'), 
               ('split', None), ('normalize', 'ab/'), ('parse', None)]
 
 
+INDEX_SHAPES = {
+    'quick': {'T1': [{'C': 2, 'S': 3}, {'C': 3, 'S': 2}, {'C': 2, 'S': 2}],
+              'T2': [{'C': 2, 'D': 1, 'S': 3, 'T': 2}],
+              'T3': [{'A': 1, 'C': 2, 'S': 3}],
+              'T4': [{'C': 2, 'S': 3}],
+              'T5': [{'C': 2, 'S': 3}, {'C': 3, 'S': 2}]},
+    'thorough': {'T1': [{'C': a, 'S': b} for a in range(1, 5) for b in range(1, 5)],
+                 'T2': [{'C': 2, 'D': 1, 'S': 3, 'T': 2}, {'C': 2, 'D': 2, 'S': 3, 'T': 4}, {'C': 3, 'D': 1, 'S': 2, 'T': 4},
+                        {'C': 1, 'D': 1, 'S': 2, 'T': 3}, {'C': 3, 'D': 3, 'S': 3, 'T': 3}],
+                 'T3': [{'A': 1, 'C': 2, 'S': 3}, {'A': 2, 'C': 3, 'S': 2}, {'A': 2, 'C': 2, 'S': 4}, {'A': 3, 'C': 1, 'S': 3}],
+                 'T4': [{'C': 2, 'S': 3}, {'C': 1, 'S': 2}, {'C': 3, 'S': 2}, {'C': 2, 'S': 4}],
+                 'T5': [{'C': a, 'S': b} for a in range(1, 5) for b in range(1, 5)]},
+}
+
+
+def _ijob(tree, lens, history, symbolic_files=False):
+    spec = TREES[tree]
+    par, ckey, _ = spec['nodes'][spec['child']]
+    sib = {k for p2, k, _ in spec['nodes'] if p2 == par and k != ckey}
+    req = ['index_judged', 'file_indexed_exactly_once', 'file_indexed_under_innermost_shared_directory', 'unrelated']
+    if any(lens[k] > lens[ckey] for k in sib):
+        req.append('sibling_extends_child_name')        # 'Rock' / 'Rock Live' must be feasible
+    elif any(lens[k] < lens[ckey] for k in sib):
+        req.append('child_extends_sibling_name')
+    params = {'tree': tree, 'lens': lens, 'history': history}
+    if symbolic_files:
+        params['symbolic_files'] = True
+    return {'harness': 'index', 'fn': h_index, 'params': params, 'requires': req, 'timeout_s': 300}
+
+
 def jobs(tier):
     out = []
     quick = tier == 'quick'
@@ -713,6 +1033,17 @@ def jobs(tier):
         for what, arg in SELFCHECKS:
             out.append({'harness': 'selfcheck', 'fn': h_selfcheck, 'params': {'what': what, 'arg': arg, 'n': n},
                         'requires': ['selfcheck', 'shim_agrees_with_cpython']})
+    # --- second sentence: containment kernel and the index built by add / scan / remove ---
+    top = 5 if quick else 7
+    for lp in range(0, top + 1):
+        for lq in range(0, top + 1):
+            out.append({'harness': 'contains', 'fn': h_contains, 'params': {'p': '/' + '~' * lp, 'q': '/' + '~' * lq},
+                        'requires': ['containment_decided', 'is_parent_of_is_component_wise', 'parent_directories_are_the_ancestors']})
+    for tree, lens_list in INDEX_SHAPES['quick' if quick else 'thorough'].items():
+        for lens in lens_list:
+            for hist in (HISTORIES_TWO_NESTED if 'child2' in TREES[tree] else HISTORIES):
+                for symf in ((False,) if quick else (False, True)):
+                    out.append(_ijob(tree, lens, hist, symf))
     # --- the query itself ---
     if quick:
         for q in QUERIES_QUICK:
